@@ -94,10 +94,31 @@ def w_const(task):
                     _viol(out, f"Signal({shape!r},init={v})", f"Signal init {sig.init}, want {want}",
                           {"kind": "siginit", "v": v, "w": w, "s": sg})
                 md = MemoryData(shape=shape, depth=2, init=[v])
-                raw = list(md.init._raw) if hasattr(md.init, "_raw") else list(md.init)
                 if list(md.init)[0] != want or list(md.init)[1] != 0:
                     _viol(out, f"MemoryData({shape!r},init=[{v}])", f"memory row {list(md.init)}, want [{want}, 0]",
                           {"kind": "meminit", "v": v, "w": w, "s": sg})
+                # every way of setting initial rows wraps the same way: index assignment, slice assignment, whole-list assignment;
+                # the rows the simulator / netlist see (Init._raw) agree with the rows the user sees
+                out["cov"]["evaluations"] += 3
+                v2 = -v - 1
+                want2 = wrap(v2, w, sg)
+                for how in ("index", "slice", "assign"):
+                    md = MemoryData(shape=shape, depth=3, init=[])
+                    try:
+                        if how == "index":
+                            md.init[1] = v
+                            md.init[2] = v2
+                        elif how == "slice":
+                            md.init[1:3] = [v, v2]
+                        else:
+                            md.init = [0, v, v2]
+                        got = list(md.init)
+                        raw = list(md.init._raw)
+                    except Exception as ex:
+                        got = raw = ["raises " + type(ex).__name__]
+                    if got != [0, want, want2] or raw != [0, want, want2]:
+                        _viol(out, f"MemoryData({shape!r}).init:{how}:{v}", f"memory rows set by {how} with ({v}, {v2}): {got} (raw {raw}), want [0, {want}, {want2}]",
+                              {"kind": "meminit", "v": v, "w": w, "s": sg})
     return out
 
 
